@@ -162,3 +162,6 @@ Proof. change [x; y] with ([x] ++ [y]). rewrite app_assoc. apply last_last. Qed.
 
 Lemma Bytes_cons a l : Bytes (a :: l) <-> a < 256 /\ Bytes l.
 Proof. unfold Bytes. split; [intros H; inversion H; auto|intros [? ?]; constructor; auto]. Qed.
+
+Lemma nth_app_second {A} (l : list A) x y d n : n = S (length l) -> nth n (l ++ [x; y]) d = y.
+Proof. intros ->. rewrite app_nth2 by lia. replace (S (length l) - length l)%nat with 1%nat by lia. reflexivity. Qed.
